@@ -6,6 +6,7 @@ import (
 	"errors"
 	"fmt"
 	"strings"
+	"sync"
 	"time"
 
 	eb "github.com/jilio/ebu"
@@ -224,6 +225,29 @@ func upcastDomain(lines []string) []string {
 			}
 			out = append(out, fmt.Sprintf("seen off=%s ts=%d ty=%d data=%s opt=%d calls=%s errh=%s",
 				strings.TrimPrefix(string(seen.Offset), "o"), seen.Timestamp.UnixNano(), tyCode(seen.Type), dataToList(seen.Data), dataOpt(seen.Data), showCalls(calls), showCalls(errCalls)))
+		case f[0] == "racereg" && len(f) == 2:
+			// racing registrations of opposite edges must never both be accepted (the graph stays acyclic)
+			bad := -1
+			for round := 0; round < atoi(f[1]) && bad < 0; round++ {
+				b := eb.New()
+				fn := func(d json.RawMessage) (json.RawMessage, string, error) { return d, "x", nil }
+				var wg sync.WaitGroup
+				var e1, e2 error
+				start := make(chan struct{})
+				wg.Add(2)
+				go func() { defer wg.Done(); <-start; e1 = eb.RegisterUpcastFunc(b, "A", "B", fn) }()
+				go func() { defer wg.Done(); <-start; e2 = eb.RegisterUpcastFunc(b, "B", "A", fn) }()
+				close(start)
+				wg.Wait()
+				if e1 == nil && e2 == nil {
+					bad = round
+				}
+			}
+			if bad >= 0 {
+				out = append(out, fmt.Sprintf("!racereg both A->B and B->A were accepted (round %d): the registry is cyclic", bad))
+			} else {
+				out = append(out, "racereg ok")
+			}
 		default:
 			out = append(out, "bad-op "+line)
 		}
